@@ -572,7 +572,8 @@ def summarise(module, corrected: bool, entry='mutual_info_estimator_numba'):
 
     def is_other_rule(s):
         # (a) the sampling block `if <ratio> < 1: Y, X = stratified_subsampling(...)` (C04; not taken at ratio 1)
-        if isinstance(s.test, ast.Compare) and isinstance(s.test.left, ast.Name) and s.test.left.id == ratio_name and not s.orelse:
+        if isinstance(s.test, ast.Compare) and len(s.test.ops) == 1 and not s.orelse and any(isinstance(x, ast.Name) and x.id == ratio_name for x in (s.test.left, s.test.comparators[0])) \
+                and any(isinstance(c, ast.Call) and 'subsampling' in ast.unparse(c.func) for b in s.body for c in ast.walk(b)):
             return True
         # (b) the self-pair test `if <...>: flag = False` (C02.2 / C03.5)
         if not s.orelse and all(isinstance(b, ast.Assign) and len(b.targets) == 1 and isinstance(b.targets[0], ast.Name) and b.targets[0].id == flag for b in s.body):
